@@ -7,7 +7,7 @@ def chk(pid, text, note, technique, design):
 import sys
 sys.path.insert(0, "/verif")
 from manifest_entries import ENTRIES, NOT_APPLICABLE
-for e in ENTRIES: chk(*e)
+for e in sorted(ENTRIES): chk(*e)
 m = dict(version=1,
   setup_cmd="cd /verif && /venv/bin/python -c \"import sys; sys.path.insert(0,'/verif'); import vf.common\"",
   hooks=dict(guard="REX_VERIF", enable="none needed: the controlled scheduler replaces rex.asynchronous' module-level concurrency primitives from outside (vf/sched.py: patch_rex_async); checks import rex from /repo's working tree (VERIF_REPO overrides)", baseline_off_cmd="cd /repo && /venv/bin/python -m pytest -ra -q -p no:cacheprovider --timeout=900 --continue-on-collection-errors", source_commits=[], add_only=True),
